@@ -253,6 +253,11 @@ where
             if self.signal_pending.take().is_some() {
                 if let Some(excluded) = excluded {
                     self.transition(excluded, Event::Signal);
+                    // at most one signal per call: a signal raised by the
+                    // excluded machine in response is dropped, like signals
+                    // raised in response when all machines were signalled,
+                    // instead of leaking into the next call
+                    self.signal_pending = None;
                 }
             }
         }
